@@ -474,6 +474,22 @@ theorem handshake_consumes_exactly {α : Type} (net : NetCfg) (t : Nat) (dec : D
   simp only [hs, hdec, if_true, hb]
   cases dec body <;> exact ⟨rfl, rfl⟩
 
+
+/-- **a handshake message that announces MORE bytes than its fields occupy is taken off the socket whole**
+(a newer peer that appended a field): whatever `k` surplus bytes `junk` follow the fields inside the announced
+length, and whichever way the body parser works, `read_message` consumes the 11 header bytes and ALL
+`fields.length + k` announced bytes, returns the value the parser finds in front, and the next frame starts
+exactly at `rest` -/
+theorem handshake_surplus_is_drained {α : Type} (net : NetCfg) (t : Nat) (dec : Dec α) (fields junk rest : Bytes)
+    (v : α) (a : Nat) (hdec : dec (fields ++ junk) = .ok v junk a)
+    (hk : isKnownType t = true) (hl : (fields ++ junk).length ≤ maxLen net t) (h64 : (fields ++ junk).length < 2^64) :
+    (readMessage net t dec (encHeader net t (fields ++ junk).length ++ ((fields ++ junk) ++ rest))).consumed =
+      11 + fields.length + junk.length ∧
+    (readMessage net t dec (encHeader net t (fields ++ junk).length ++ ((fields ++ junk) ++ rest))).res = .ok v := by
+  obtain ⟨h1, h2⟩ := handshake_consumes_exactly net t dec (fields ++ junk) rest hk hl h64
+  refine ⟨by rw [h1, List.length_append]; omega, ?_⟩
+  rw [h2, hdec]
+
 /-- header items of DIFFERENT serialized sizes are within `framing_faithful`: a receiving node whose
 items are a length byte followed by that many bytes, and a `Headers` list with items of 3, 1 and 5 bytes -/
 example : ∀ m ∈ [Sent.headers [(2, [2, 7, 7]), (0, [0]), (4, [4, 1, 2, 3, 4])]],
